@@ -394,11 +394,20 @@ fn block_laws(b: &BlockView, report: &mut Report) {
     match b.extension() {
         Some(e) => {
             let mut raw = e.raw_data().to_vec();
-            raw[0] ^= 1;
+            if raw.is_empty() {
+                raw.push(0);
+            } else {
+                raw[0] ^= 1;
+                // present-but-empty is a value of its own: neither the old content nor "absent"
+                variants.push(("extension-emptied", "extra_hash", b.as_advanced_builder().extension(Some(Bytes::new().pack())).build()));
+            }
             variants.push(("extension-content", "extra_hash", b.as_advanced_builder().extension(Some(Bytes::from(raw).pack())).build()));
             variants.push(("extension-removed", "extra_hash", b.as_advanced_builder().extension(None).build()));
         }
-        None => variants.push(("extension-added", "extra_hash", b.as_advanced_builder().extension(Some(Bytes::from(vec![1u8; 32]).pack())).build())),
+        None => {
+            variants.push(("extension-added", "extra_hash", b.as_advanced_builder().extension(Some(Bytes::from(vec![1u8; 32]).pack())).build()));
+            variants.push(("extension-added-empty", "extra_hash", b.as_advanced_builder().extension(Some(Bytes::new().pack())).build()));
+        }
     }
     for (name, field, m) in variants {
         report.evaluations += 1;
@@ -422,7 +431,7 @@ pub fn meta(_tier: Tier) -> Meta {
     Meta {
         id: "C15",
         level: "exploration",
-        rule: "value space: every combination of vector lengths 0..=2 for the five vectors of a transaction (243 shapes), blocks with 1..=3 txs x 0..=2 proposals x 0..=2 uncles x extension {absent,32B,96B}, all script hash types x arg sizes, option arms, numeric extremes rotating through every position; protocol messages: one per union arm (Sync 5, Relay 8, BlockFilter 6, LightClient 8) in small and large variants. Identities: molecule strict/compatible decode and field-by-field rebuild; packed->JSON->string->JSON->packed and JSON->packed->JSON; hash laws under EVERY single-field mutation from a fixed catalogue (18 tx mutations, 8+ block mutations); canonicality of every accepted single-byte (7 values per position), header-word (7 values per aligned word) and truncation mutant of every encoding <= 400 bytes. non-trivial = an accepted mutant / an applied mutation; distinct by (value, mutation).",
+        rule: "value space: every combination of vector lengths 0..=2 for the five vectors of a transaction (243 shapes), blocks with 1..=3 txs x 0..=2 proposals x 0..=2 uncles x extension {absent,0B,1B,32B,96B}, all script hash types x arg sizes, option arms, numeric extremes rotating through every position; protocol messages: one per union arm (Sync 5, Relay 8, BlockFilter 6, LightClient 8) in small and large variants. Identities: molecule strict/compatible decode and field-by-field rebuild; packed->JSON->string->JSON->packed and JSON->packed->JSON; hash laws under EVERY single-field mutation from a fixed catalogue (18 tx mutations, 8+ block mutations); canonicality of every accepted single-byte (7 values per position), header-word (7 values per aligned word) and truncation mutant of every encoding <= 400 bytes. non-trivial = an accepted mutant / an applied mutation; distinct by (value, mutation).",
         assumptions: &["small-scope hypothesis: vectors longer than 2-3 elements and multi-field interactions are not enumerated"],
         bounds: json!({"vector_lengths": "0..=2", "mutant_encodings_max_bytes": 400}),
     }
